@@ -77,6 +77,7 @@ type Case struct {
 	Alt       Config `json:"altConfig"`
 	Ops       []Op   `json:"ops"`
 	CloseTail bool   `json:"closeTail,omitempty"`   // after the history the balancer is closed, then the calls still open complete and a few calls are started on the last pickers (only "no panic, returns")
+	CrProbe   bool   `json:"createProbe,omitempty"` // while the library is inside NewSubConn for a refresh (started by a completion), another goroutine completes a further open plain call of that channel with success: it counts as a response, after the refresh has started
 	RmProbe   bool   `json:"removeProbe,omitempty"` // a plain call is started by another goroutine at the moment the library hands a connection to RemoveSubConn
 	Failure   *Fail  `json:"failure,omitempty"`
 }
@@ -338,6 +339,7 @@ type fcc struct {
 	everRemoved map[balancer.SubConn]bool
 	// called inside RemoveSubConn (the library is in the middle of a take-over then)
 	onRemove func(balancer.SubConn)
+	onCreate func() // called inside NewSubConn (the library may hold its locks there)
 }
 
 func (c *fcc) reset() { c.created, c.removed, c.pubs, c.refused, c.updAddr = nil, nil, nil, 0, 0 }
@@ -349,6 +351,9 @@ func (c *fcc) NewSubConn(a []resolver.Address, o balancer.NewSubConnOptions) (ba
 	sc := &fsc{id: len(c.all), addrs: astr(a), held: a}
 	c.all = append(c.all, sc)
 	c.created = append(c.created, sc)
+	if c.onCreate != nil {
+		c.onCreate()
+	}
 	return sc, nil
 }
 func (c *fcc) RemoveSubConn(sc balancer.SubConn) {
